@@ -42,6 +42,19 @@ def is_query(width, value, dt=0):
     return c[0] == "known" and c[1].answer != "none"
 
 
+def is_send_twice(width, value, dt=0):
+    """Is this frame a command the standard requires to be sent twice?"""
+    if width == 16:
+        c = cmd_ref.classify16(value, 0)
+        if c[0] != "known" and dt:
+            c = cmd_ref.classify16(value, dt)
+    elif width == 24 and (value >> 16) & 1:
+        c = cmd_ref.classify24(value)
+    else:
+        return False
+    return c[0] == "known" and bool(c[1].twice)
+
+
 # ------------------------------------------------------------------------------------------- HID
 
 class OsShim:
